@@ -251,6 +251,11 @@ def run(ctx):
            I.getattr(f, "density"), nd / want, fsite(ctx, "formulas.Formula.natural_density.setter"))
         eq(ctx, "R1", f"natural_density reads back what was set [{kind}]", I.getattr(f, "natural_density"), nd,
            fsite(ctx, "formulas.Formula.natural_density"))
+        # ... and a density assigned afterwards is what the natural density is computed from (nothing of the earlier value is kept)
+        d_later = sp.Symbol("rho_later", positive=True)
+        I.setattr(f, "density", d_later)
+        eq(ctx, "R1", f"natural_density after natural_density = nd; density = d is d * ratio [{kind}]", I.getattr(f, "natural_density"), d_later * want,
+           fsite(ctx, "formulas.Formula.natural_density"))
     # the ratio follows the composition: after an in-place extension (f += g) by something of another isotope content, the
     # natural density read or set is that of the extended formula, whatever was read or set before
     a_i, a_e = A["isotope"], A["element"]
